@@ -5,6 +5,7 @@ package main
 
 import (
 	"fmt"
+	"go/token"
 	"sort"
 	"strings"
 
@@ -15,9 +16,18 @@ type Site struct {
 	Fn     *ssa.Function
 	Table  *Table
 	Method string
-	Kind   string // insert | update | save | delete | deleterange | get | has | list
-	Call   ssa.CallInstruction
-	Bank   string // bank method name when a bank call
+	Kind   string              // insert | update | save | delete | deleterange | get | has | list
+	Call   ssa.CallInstruction // nil for a method value (k.table.Insert taken as a value: a potential call)
+	Bank   string              // bank method name when a bank call
+	pos    token.Pos
+}
+
+// At: where the site is.
+func (s Site) At() token.Pos {
+	if s.Call != nil {
+		return s.Call.Pos()
+	}
+	return s.pos
 }
 
 type Inventory struct {
@@ -61,6 +71,25 @@ func BuildInventory(m *Model, includeExcluded bool) *Inventory {
 				inv.Sites = append(inv.Sites, Site{Fn: fn, Method: b, Bank: b, Kind: "bank", Call: ci})
 			}
 		}
+		// method values of tables and of the bank keeper: taking `table.Delete` as a value is a potential call
+		for _, b := range fn.Blocks {
+			for _, in := range b.Instrs {
+				mc, ok := in.(*ssa.MakeClosure)
+				if !ok || len(mc.Bindings) != 1 {
+					continue
+				}
+				bf, ok := mc.Fn.(*ssa.Function)
+				if !ok || !strings.HasSuffix(bf.Name(), "$bound") {
+					continue
+				}
+				name := strings.TrimSuffix(bf.Name(), "$bound")
+				if t := m.TableOfIface(mc.Bindings[0].Type()); t != nil && ormOpKind(name) != "" {
+					inv.Sites = append(inv.Sites, Site{Fn: fn, Table: t, Method: name, Kind: ormOpKind(name), pos: mc.Pos()})
+				} else if n := namedOf(mc.Bindings[0].Type()); n != nil && n.Obj().Name() == "BankKeeper" && isBankMutator(name) {
+					inv.Sites = append(inv.Sites, Site{Fn: fn, Method: name, Bank: name, Kind: "bank", pos: mc.Pos()})
+				}
+			}
+		}
 	}
 	return inv
 }
@@ -87,6 +116,9 @@ func (inv *Inventory) AllWrites() []Site {
 
 // rowArg returns the row argument value of a write call (Insert/Update/Save/Delete).
 func rowArg(s Site) ssa.Value {
+	if s.Call == nil {
+		return nil
+	}
 	a := s.Call.Common().Args
 	if len(a) >= 2 && (s.Kind == "insert" || s.Kind == "update" || s.Kind == "save" || s.Kind == "delete") {
 		return a[1]
